@@ -77,6 +77,9 @@ def run(ctx, replay):
         for s in [x for x in chosen if len(x) <= 2] + rng.sample(deep, 40 if quick else 400):
             sc = dict(rng.choice(scripts(rng, full=True)), hijack=False, rawmap=True)
             steps.append({"layers": s, "script": sc, "via": rng.choice(["server", "recorder"])})
+        for stp in steps:     # the tracer's record sink fails for some of the exchanges that pass through a tracer
+            if any(l["name"] == "trace" for l in stp["layers"]) and rng.random() < 0.4:
+                stp["sinkfail"] = True
         scs = [{"id": "stacks-%d" % i, "cfg": {}, "steps": steps[i:i + 200]} for i in range(0, len(steps), 200)]
     tp = vlib.run_scenarios(ctx, "stack", scs, "c20", hang_s=60)
     res = vlib.validate_trace(ctx, "Trace_Stack", tp, "c20")
